@@ -48,6 +48,7 @@ class StubSink(ClientMessageSink):
     self.open_ar = None
     self.requests = []        # every StubRequest ever received
     self.opening = False
+    self.closing = False
 
   def __repr__(self):
     return '<stub %s#%d>' % (self.endpoint, self.ordinal)
@@ -67,6 +68,12 @@ class StubSink(ClientMessageSink):
     loop = SimLoop.INSTANCE
     self.open_calls += 1
     self.provider.note('open', self)
+    if self.closing:
+      fn = getattr(self.provider.world, 'on_open_during_close', None)
+      if fn:
+        fn(self)
+    if self.spec.get('reopen') and self.closed_at is not None and self.died_at is None:
+      self.closed_at = None
     if self.open_ar is not None and not self.spec.get('reopen'):
       return self.open_ar
     ar = AsyncResult()
@@ -107,10 +114,20 @@ class StubSink(ClientMessageSink):
 
   def Close(self):
     self.close_calls += 1
+    self.provider.note('close', self)
+    d = self.spec.get('close_yield')
+    if d is not None:
+      # a close that takes a moment (drain / join a reader): yields to the hub
+      import gevent
+      self.closing = True
+      try:
+        gevent.sleep(d)
+      finally:
+        self.closing = False
+      self.provider.note('close_end', self)
     if self.closed_at is None:
       self.closed_at = CLOCK.now
     self._state = ChannelState.Closed
-    self.provider.note('close', self)
 
   def die(self, signal=True, fail_inflight=True):
     """The connection fails underneath: state Closed, optional fault signal,
